@@ -41,7 +41,7 @@ def main():
     rep = []
     summary = {}
     for key in sorted(executed):
-        if not os.path.exists(key):
+        if not os.path.exists(key) or not key.endswith('.py'):
             continue
         src = open(key, encoding='utf-8').read()
         p = PythonParser(text=src, filename=key)
@@ -85,7 +85,7 @@ def main():
         fh.write('check %s tier %s exit %s\n' % (prop, tier, code))
         fh.write('\n'.join(rep) + '\n')
     json.dump({'summary': summary,
-               'executed': {os.path.relpath(k, REPO): sorted(v) for k, v in executed.items() if os.path.exists(k)}},
+               'executed': {os.path.relpath(k, REPO): sorted(v) for k, v in executed.items() if os.path.exists(k) and k.endswith('.py')}},
               open(os.path.join(VERIF, 'notes', 'coverage', prop + '.json'), 'w'), sort_keys=True)
     try:
         os.remove(data_file)
